@@ -211,6 +211,11 @@ func Exec(p Params, pats []NamedTP, ctl *explore.Ctl, mon Monitor) (explore.Resu
 // ExecWith is Exec with a last-minute adjustment of the world configuration.
 func ExecWith(p Params, pats []NamedTP, ctl *explore.Ctl, mon Monitor, adjust func(c *world.Config)) (explore.Result, *world.Exec) {
 	v := &Verdict{Prop: p.Prop}
+	if p.ReadDelay >= 2*time.Minute {
+		// a failure pattern of its own: what happens to a connection whose reader pauses for longer
+		// than the stack's timestamp tolerance / retransmission budget
+		v.Prop += "/reader-paused-over-2min"
+	}
 	hz := p.Horizon
 	if hz == 0 {
 		hz = 60 * time.Second
